@@ -63,3 +63,11 @@ package ice
 // The connection state has one writer.
 //@ enumerate C04 stores ice.Agent.connectionState in (*Agent).updateConnectionState, createAgentBase
 //@ enumerate C04 calls ice.(*handlerNotifier).EnqueueConnectionState in (*Agent).updateConnectionState
+
+// The periodic task body of connectivityChecks (closure `contact` -> loop task).
+//@ func (*Agent).connectivityChecks$1$1
+//@   props C04
+//@   requires C04 timeouts-non-negative: a.disconnectedTimeout >= 0 && a.failedTimeout >= 0
+//@   site call updateConnectionState#1 assert initial-deadline-only-while-checking: a.connectionState == ConnectionStateChecking && arg1 == ConnectionStateFailed && checkingTimeout != 0
+//@   site call ContactCandidates#1 assert no-checks-while-failed: a.connectionState != ConnectionStateFailed
+//@   ensures failed-tick-is-silent: old(a.connectionState) == ConnectionStateFailed ==> unchangedExcept("E_ice.ConnectionState")
